@@ -121,7 +121,9 @@ def encode_eds(step, options):
     sn = gC("MkEdsSnap", gZ(step["now"]), gO(e, P.g_eds), gL(rss_l),
             gL(nodes), gL(pods_l), mode, gB(bool(f.get("status"))), gB(bool(f.get("update"))),
             gL([P.nm(n) for n in f.get("rs_delete") or []]), gB(bool(f.get("rs_create"))),
-            gB("ExtendedDaemonSetReplicaSet" in (f.get("list_fail") or [])))
+            gB("ExtendedDaemonSetReplicaSet" in (f.get("list_fail") or [])),
+            # the lists read inside selectNodes
+            gB(any(k in ("Pod", "Node") for k in f.get("list_fail") or [])))
     writes = []
     for c in step["calls"]:
         if c["kind"] == "ExtendedDaemonSet" and c["verb"] == "update":
